@@ -54,6 +54,7 @@ PROPS = {
     "C17": _p([{"gen": "C17"}], [], []),
     "C18": _p([{"gen": "C18"}], [], []),
     "C20": _p([{"gen": "C20"}], [], []),
+    "C09": _p([{"frozen": "default"}, {"frozen": "vectors", "vectors": True}], [], []),
     "C14": _p([{"gen": "C14", "vectors": True}], [], [], replay_vectors=True),
     "C15": _p([{"gen": "C15", "vectors": True}], [], [], replay_vectors=True),
     "C16": _p([{"gen": "C16", "vectors": True}], [], [], replay_vectors=True),
